@@ -13,6 +13,10 @@ RULE = ('each evaluation is one WAWK program generated from the statement/expres
         'wawk command does) is compared with an AWK-style reference evaluation over the trace data (oracle); the text written '
         'for -o is read back with the WAL reader and compared with the emitted forms; the emitted forms are compared with the '
         'Coq model of emit applied to the parsed statements; a sample also runs the real wawk command (direct and -o). '
+        'Expressions: random trees (depth <= 5) over numbers, symbols, strings, calls, ! and the 12 binary operators are written with parentheses only '
+        'where the levels require them (plus random redundant pairs), in three spacing styles (single spaces, none, random white space and // comments), '
+        'and parsed by the implementation (expr rule + TreeToWal) and by the Coq parser: both must yield the tree (oracle and correspondence); a fixed '
+        'list of malformed texts must be rejected by both. '
         'distinct = distinct program texts; non-trivial = program has a condition statement and an END print')
 
 PREC = {'||': 1, '&&': 2, 'cmp': 3, '+': 4, '-': 4, '*': 5}
@@ -265,6 +269,122 @@ def cli_check(rng, items, rep):
     return fails
 
 
+# ---- the expression grammar: trees -> text (parentheses only where the levels require them) -> parser ----
+XLVL = {'||': 1, '&&': 2, '==': 3, '!=': 3, '>': 3, '<': 3, '>=': 3, '<=': 3, '+': 4, '-': 4, '*': 5, '/': 5}
+XOPS = list(XLVL)
+XSYMS = ['a', 'b1', 'top.a', '_x', 's$1', 'clk', 'x.y.z', 'A_b', 'q']
+XFUNS = ['foo', 'sum2', 'g', 'list', 'length', 'max', 'min', 'first', 'rest']
+XOPNAMES = {'list', 'length', 'max', 'min', 'first', 'rest'}
+XSTRS = ['hi', 'a b', 'x+y', '//no comment', '(', 'it is', '']
+
+
+def x_tree(rng, depth):
+    r = rng.random()
+    if depth <= 0 or r < 0.25:
+        k = rng.random()
+        if k < 0.4:
+            return ('num', rng.choice([0, 1, 2, 7, 10, 255, 1000, -1, -3, -42]))
+        if k < 0.85:
+            return ('sym', rng.choice(XSYMS))
+        return ('str', rng.choice(XSTRS))
+    if r < 0.35:
+        return ('not', x_tree(rng, depth - 1))
+    if r < 0.45:
+        return ('call', rng.choice(XFUNS), [x_tree(rng, depth - 1) for _ in range(rng.randrange(0, 4))])
+    return ('bin', rng.choice(XOPS), x_tree(rng, depth - 1), x_tree(rng, depth - 1))
+
+
+def x_lvl(e):
+    return XLVL[e[1]] if e[0] == 'bin' else 6 if e[0] == 'not' else 7
+
+
+def x_tokens(e, p, rng, extra):
+    """token texts of e at a position that requires level >= p; extra: probability of a redundant pair of parentheses"""
+    if e[0] == 'num':
+        body = [str(e[1])]
+    elif e[0] == 'sym':
+        body = [e[1]]
+    elif e[0] == 'str':
+        body = ['"%s"' % e[1]]
+    elif e[0] == 'not':
+        body = ['!'] + x_tokens(e[1], 6, rng, extra)
+    elif e[0] == 'call':
+        body = [e[1], '(']
+        for i, a in enumerate(e[2]):
+            body += ([','] if i else []) + x_tokens(a, 1, rng, extra)
+        body.append(')')
+    else:
+        l = XLVL[e[1]]
+        if l == 3:
+            body = x_tokens(e[2], 4, rng, extra) + [e[1]] + x_tokens(e[3], 4, rng, extra)
+        else:
+            body = x_tokens(e[2], l, rng, extra) + [e[1]] + x_tokens(e[3], l + 1, rng, extra)
+    if x_lvl(e) < p or rng.random() < extra:
+        return ['('] + body + [')']
+    return body
+
+
+def x_join(toks, rng, style):
+    if style == 'spaced':
+        return ' '.join(toks)
+    out = []
+    for i, t in enumerate(toks):
+        out.append(t)
+        if i + 1 == len(toks):
+            break
+        if style == 'tight':
+            sep = ''
+        else:
+            sep = rng.choice(['', ' ', '  ', '\t', '\n', ' // note\n', '\r\n ', ' \f'])
+        # a division directly followed by another division sign or a comment would start a comment
+        if sep == '' and t == '/' and toks[i + 1].startswith('/'):
+            sep = ' '
+        out.append(sep)
+    return ''.join(out)
+
+
+def x_ser(e):
+    hx = lambda t: t.encode().hex()          # noqa: E731
+    opn = lambda o: '=' if o == '==' else o  # noqa: E731
+    if e[0] == 'num':
+        return 'I%d' % e[1]
+    if e[0] == 'sym':
+        return 'Y' + hx(e[1])
+    if e[0] == 'str':
+        return 'S' + hx(e[1])
+    if e[0] == 'not':
+        return '[ O%s %s ]' % (hx('!'), x_ser(e[1]))
+    if e[0] == 'call':
+        head = ('O' if e[1] in XOPNAMES else 'Y') + hx(e[1])
+        return '[ ' + ' '.join([head] + [x_ser(a) for a in e[2]]) + ' ]'
+    return '[ O%s %s %s ]' % (hx(opn(e[1])), x_ser(e[2]), x_ser(e[3]))
+
+
+X_MALFORMED = ['a + * b', 'a < b < c', '(a', 'a)', 'f(,)', 'f(a,)', '1 2', 'a -- 1', '&& a', 'a &', 'a | b', '!', '', 'a +', '()', 'a == == b',
+               '1a', '(a)(b)', 'a - - 1', 'a ! b', '"open', 'a,b', 'a >= <= b', '!!', 'f((a)', 'a */ b', '+ 1', '- a']
+X_OUTSIDE = ['a !== b', 'f(a b)', 'a b', 'a = 1', '~a', 'a[1]', 'a@1', '[1, 2]', 'a 1', '#g', 'a.b c', '"a\\n"', 'x != = y']
+
+
+def x_cases(rng, n):
+    cases = []
+    per = 40
+    items = []
+    for k in range(n):
+        e = x_tree(rng, rng.randrange(0, 6))
+        style = rng.choice(['spaced', 'tight', 'mixed', 'mixed'])
+        extra = rng.choice([0.0, 0.0, 0.15, 0.4])
+        items.append((x_join(x_tokens(e, 1, rng, extra), rng, style), 'ok ' + x_ser(e)))
+    for t in X_MALFORMED:
+        items.append((t, 'err P'))
+    chunks = [items[k:k + per] for k in range(0, len(items), per)]
+    # texts outside the modelled fragment, one session each (the model answers "unmodelled", which ends its session)
+    chunks += [[(t, None)] for t in X_OUTSIDE]
+    for chunk in chunks:
+        cases.append({'id': 0, 'kind': 'expr', 'cmds': [['wawkx', t] for t, _ in chunk], 'chunk': chunk, 'nontrivial': False,
+                      'src': chunk[0][0]})
+    return cases
+
+
 def run(tier, seed, replay=None):
     rep = lib.Report(PID, tier, seed)
     build = lib.Build().run()
@@ -281,8 +401,20 @@ def run(tier, seed, replay=None):
         cases.append({'id': c, 'cmds': [['file', 't.vcd', vcd], ['wawk', src]], 'src': src, 'want': want, 'vcd': vcd,
                       'nontrivial': bool(prog[1])})
 
+    xc = x_cases(rng, 400 if tier == 'quick' else 60000)
+    for c in xc:
+        c['id'] = len(cases)
+        cases.append(c)
+
     def oracle(case, impl):
         res = impl.get('results') or []
+        if case.get('kind') == 'expr':
+            for i, (t, want) in enumerate(case['chunk']):
+                if i >= len(res):
+                    return f'session stopped at {res[-1:]}'
+                if want is not None and lib.canon(res[i]) != lib.canon(want):
+                    return f'the expression {t!r} is parsed as {res[i][:300]} but its reading by levels (left to right, * / over + -, comparisons, && over ||) is {want[:300]}'
+            return None
         if len(res) < 2:
             return f'session stopped at {res[-1:]}'
         r = res[1]
@@ -299,7 +431,7 @@ def run(tier, seed, replay=None):
     results = lib.run_sessions(cases)
     lib.std_checks(rep, results, oracle)
     k = 6 if tier == 'quick' else 60
-    sample = rng.sample(cases, k)
+    sample = rng.sample([c for c in cases if c.get('kind') != 'expr'], k)
     for msg in cli_check(rng, [(c['src'], c['vcd'], c['want']) for c in sample], rep):
         rep.oracle_failures.append({'case': {}, 'why': msg})
     rep.extra['cli_runs'] = k
@@ -313,13 +445,22 @@ def run(tier, seed, replay=None):
         rep.known_hits.append(listed[0]['what'])
     elif bad:
         rep.oracle_failures.append({'case': {}, 'why': 'y = arr[1] does not read the array element: ' + r0[:100]})
+    nx = 0
     for c in cases:
+        if c.get('kind') == 'expr':
+            for t, want in c['chunk']:
+                nx += 1
+                rep.count('expr-' + ('tree' if want and want.startswith('ok') else 'malformed' if want else 'outside-fragment'))
+                if want and want.count('[') >= 2:
+                    rep.nontrivial(t)
+            continue
         if c['nontrivial']:
             rep.nontrivial(c['src'])
         rep.count('stmts=%d' % c['src'].count(': {'))
-    rep.evaluations = len(cases)
+    rep.evaluations = len(cases) - len(xc) + nx
     rep.samples = [c['src'] for c in cases[:3]]
     return lib.finish(rep, build, level='proof', rule=RULE, assumptions=[
-        'PARTIAL: the Earley parser of wawk/parser.py is not modelled; that it reads the rendered text as the generated AST is decided by '
-        'the differential run (reference evaluation of the AST vs execution of the parsed text)',
+        'PARTIAL: of the Earley parser of wawk/parser.py the expression rules (numbers, symbols, plain strings, calls, ! * / + - comparisons && ||) '
+        'are modelled (WawkParse.v) and compared on generated expression texts; for statements, that the parser reads the rendered text as the '
+        'generated AST is decided by the differential run (reference evaluation of the AST vs execution of the parsed text)',
         'division, unary !, comparisons outside parentheses and integer array indices on the right-hand side are outside the generated fragment'])
